@@ -409,6 +409,8 @@ func baseSetFEnv(L *LState) int {
 }
 
 func baseSetMetatable(L *LState) int {
+	// only a table gets its metatable here (luaB_setmetatable); the other types are for debug.setmetatable
+	L.CheckTable(1)
 	L.CheckTypes(2, LTNil, LTTable)
 	obj := L.Get(1)
 	if obj == LNil {
